@@ -3,6 +3,9 @@
 // and non-history entering events; several enter/move/exit cycles (the memory must be the LAST exit's configuration).
 #include "common.hpp"
 #include <boost/msm/front/history_policies.hpp>
+struct x_a {}; struct x_g {}; struct x_ag {}; static int g_xact = 0;
+struct XAct { template<class E,class F,class S,class T> void operator()(E const&,F&,S&,T&){ ++g_xact; } };
+struct XTrue { template<class E,class F,class S,class T> bool operator()(E const&,F&,S&,T&){ return true; } };
 struct na {}; struct nb {}; struct leave {}; struct resume {}; struct plain {}; struct resume_x {}; struct plain_x {};
 enum { H_NO, H_ALWAYS, H_SHALLOW };
 template<int H> struct Sub_ : state_machine_def<Sub_<H>> {
@@ -84,9 +87,25 @@ template<int H> struct TopX_ : state_machine_def<TopX_<H>> {
   struct Out : state<> {};
   typedef Out initial_state;
   struct transition_table : mpl::vector< Row<Sub,leave,Out,none,none>, Row<Out,plain,Sub,none,none>,
-    Row<Out,plain_x,typename Sub::template direct<typename Sub_<H>::A3>,none,none> > {};
+    Row<Out,plain_x,typename Sub::template direct<typename Sub_<H>::A3>,none,none>,
+    // the same explicit entry through every ROW KIND of the back-end (action only / guard only / action and guard)
+    Row<Out,x_a,typename Sub::template direct<typename Sub_<H>::A3>,XAct,none>,
+    Row<Out,x_g,typename Sub::template direct<typename Sub_<H>::A3>,none,XTrue>,
+    Row<Out,x_ag,typename Sub::template direct<typename Sub_<H>::A3>,XAct,XTrue> > {};
   template<class F,class Ev> void no_transition(Ev const&,F&,int){}
 };
+template<int H> void run_explicit_row_kinds(const char* hn) {
+  typedef BE<TopX_<H>> Top; typedef typename TopX_<H>::Sub Sub;
+  Top ref; ref.start(); ref.process_event(plain()); Sub& rs = ref.template get_state<Sub&>(); const int initB = cur(rs,1), a1 = cur(rs,0); ref.process_event(na()); const int a2 = cur(rs,0);
+  const char* kinds[] = {"no-action-no-guard", "action-only", "guard-only", "action-and-guard"};
+  for (int k = 0; k < 4; ++k) {
+    Top m; m.start(); g_xact = 0;
+    if (k == 0) m.process_event(plain_x()); else if (k == 1) m.process_event(x_a()); else if (k == 2) m.process_event(x_g()); else m.process_event(x_ag());
+    Sub& s = m.template get_state<Sub&>();
+    const bool ok = cur(s,0) != a1 && cur(s,0) != a2 && cur(s,1) == initB && g_xact == ((k == 1 || k == 3) ? 1 : 0);
+    report(std::string(hn) + ".explicit-entry-through-row-kind." + kinds[k], ok, "C09,C02,C13", "A=" + std::to_string(cur(s,0)) + " (A1=" + std::to_string(a1) + " A2=" + std::to_string(a2) + ") B=" + std::to_string(cur(s,1)) + " actions=" + std::to_string(g_xact));
+  }
+}
 template<int H> void run_first_explicit(const char* hn) {
   typedef BE<TopX_<H>> Top; typedef typename TopX_<H>::Sub Sub;
   Top ref; ref.start(); ref.process_event(plain()); Sub& rs = ref.template get_state<Sub&>(); int initB = cur(rs,1); int a1 = cur(rs,0);
@@ -153,6 +172,7 @@ int main(int argc, char** argv) {
 #endif
   run<H_NO>("no"); run<H_ALWAYS>("always"); run<H_SHALLOW>("shallow");
   run_first<H_NO>("no"); run_first<H_ALWAYS>("always"); run_first<H_SHALLOW>("shallow");
+  run_explicit_row_kinds<H_NO>("no"); run_explicit_row_kinds<H_ALWAYS>("always");
   run_first_explicit<H_NO>("no"); run_first_explicit<H_ALWAYS>("always"); run_first_explicit<H_SHALLOW>("shallow");
   return finish();
 }
